@@ -88,6 +88,7 @@ const (
 	OFPNeg
 	OFPAbs
 	OFPSqrt
+	OFPRem // IEEE 754 remainder (round-to-nearest quotient), exact
 	OFPRti // P1 = rounding mode (RNE=0,RTN=1,RTP=2,RTZ=3)
 	OFPLt
 	OFPLeq
@@ -110,7 +111,7 @@ var opNames = map[Op]string{
 	OBVNot: "bvnot", OBVNeg: "bvneg", OBVShl: "bvshl", OBVLshr: "bvlshr", OBVAshr: "bvashr",
 	OBVUlt: "bvult", OBVUle: "bvule", OBVSlt: "bvslt", OBVSle: "bvsle", OConcat: "concat",
 	OFPAdd: "fp.add RNE", OFPSub: "fp.sub RNE", OFPMul: "fp.mul RNE", OFPDiv: "fp.div RNE",
-	OFPNeg: "fp.neg", OFPAbs: "fp.abs", OFPSqrt: "fp.sqrt RNE",
+	OFPNeg: "fp.neg", OFPAbs: "fp.abs", OFPSqrt: "fp.sqrt RNE", OFPRem: "fp.rem",
 	OFPLt: "fp.lt", OFPLeq: "fp.leq", OFPEq: "fp.eq", OFPIsNaN: "fp.isNaN", OFPIsInf: "fp.isInfinite",
 }
 
@@ -564,6 +565,8 @@ func (b *Builder) FPBin(op Op, x, y *Term) *Term {
 			return b.FPC(fx * fy)
 		case OFPDiv:
 			return b.FPC(fx / fy)
+		case OFPRem:
+			return b.FPC(math.Remainder(fx, fy))
 		case OFPLt:
 			return b.BoolC(fx < fy)
 		case OFPLeq:
@@ -860,6 +863,8 @@ func eval1(t *Term, m Model, memo map[*Term]uint64) (uint64, bool) {
 		return math.Float64bits(f64(a[0]) * f64(a[1])), true
 	case OFPDiv:
 		return math.Float64bits(f64(a[0]) / f64(a[1])), true
+	case OFPRem:
+		return math.Float64bits(math.Remainder(f64(a[0]), f64(a[1]))), true
 	case OFPNeg:
 		return a[0] ^ (1 << 63), true
 	case OFPAbs:
